@@ -6,6 +6,7 @@ import Req.Pool.CancelH2
 import Req.Pool.CancelErr
 import Req.Pool.CancelH3
 import Req.Pool.CancelDial
+import Req.Pool.CancelResend
 /-!
 Driver lanes of C08.
 
@@ -42,6 +43,9 @@ Driver lanes of C08.
   model reaches it, else the first outcome it does reach (`me=hung` = still waiting for `call.done`).
 * `c08errclass <src> <wrappers>` — `CancelErr.rel` seen through the wrappers (`u`rl.Error,
   `n`othingWrittenError, `r`eadFromServer, `b`roken conn; `-` = none): `c=<0|1> d=<0|1> t=<0|1>`.
+* `c08resend <deaths> <safeMethod> <idemKey> <getBody> <point> <j> <kind>` — the transparent re-send loop of
+  the HTTP/1 `Transport.roundTrip` (`CancelResend.run`): `res=<class> got=<GetBody calls> open=<bodies never
+  closed> late=<attempts sent after the context ended>`.
 -/
 namespace Req.Driver.L.C08
 open Req.Proto Req.Cancel
@@ -245,6 +249,22 @@ def laneLife : List String → String
       | none, _ => "bad-op"
       | _, none => "bad-trace"
     | _, _, _, _, _, _, _, _, _ => "bad-op"
+  | _ => "bad-op"
+
+def laneResend : List String → String
+  | [d, sm, ik, gb, pt, j, kind] =>
+    let point : Option Req.CancelResend.Point :=
+      if pt == "none" then some .none else if pt == "start" then some .start
+      else if pt == "received" then some .received
+      else if pt == "rewound" then j.toNat?.map .rewound else none
+    let k : Option CtxErr :=
+      if kind == "canceled" then some .canceled else if kind == "deadline" then some .deadline else none
+    match d.toNat?, bit sm, bit ik, bit gb, point, k with
+    | some d, some sm, some ik, some gb, some p, some k =>
+      match Req.CancelResend.run ⟨d, sm, ik, gb, p, k⟩ with
+      | some o => o.show
+      | none => "no-outcome"
+    | _, _, _, _, _, _ => "bad-op"
   | _ => "bad-op"
 
 def parseFlags (s : String) : Option (List Bool) :=
@@ -516,7 +536,8 @@ def lanes : List (String × (List String → String)) := [
   ("c08pool", lanePool),
   ("c08maperr", laneMapErr),
   ("c08retry", laneRetry),
-  ("c08life", laneLife)
+  ("c08life", laneLife),
+  ("c08resend", laneResend)
 ]
 
 end Req.Driver.L.C08
